@@ -24,6 +24,7 @@ from .c05 import gen_valid_records
 PROP = "C16"
 BAD = "@@BADBYTES@@"          # replaced by bytes that are invalid UTF-8 when the file is written
 BAD_BYTES = b"\xff\xfe\xc3"
+FILE_DEFAULTS = {"sep": None, "header": True, "strict": False, "passthrough": False, "ambiguous": False}
 FIELD_LIMIT = 4096
 FAULT_KINDS = ["strict_unconvertible", "no_delimiter", "missing_cell", "blank_row", "undecodable_bytes",
                "oversize_field"]
@@ -53,7 +54,7 @@ class C16Machine(Machine):
            "target_column_last", "str_path", "pd_target_column", "later_row_also_fails",
            "result_missing_empty_cell", "target_cell_changed", "pd_missing_is_na", "pd_strict_raised",
            "zero_rows", "fault_in_other_column", "ambiguous_mode_converted_cell", "file_larger_than_8k", "table_ge_40_rows",
-           "eol_crlf", "eol_lf", "eol_mixed", "no_final_line_terminator", "sep_explicit_tab", "relative_path", "pd_target_is_source", "pd_int_labels", "pd_int_labels_not_positions", "cell_with_unicode_line_boundary",
+           "eol_crlf", "eol_lf", "eol_mixed", "no_final_line_terminator", "sep_explicit_tab", "relative_path", "pd_target_is_source", "pd_int_labels", "pd_int_labels_not_positions", "file_flags_left_to_defaults", "pd_flags_left_to_defaults", "cell_with_unicode_line_boundary",
            "pd_index_custom", "pd_index_reversed", "pd_index_offset", "pd_index_duplicated", "pd_index_sliced"]
     )
 
@@ -67,7 +68,7 @@ class C16Machine(Machine):
             "curie_pool": tokens.pick_pool(rng, tokens.CURIE_PREFIXES, [], 4, 8),
             "uri_pool": tokens.pick_pool(rng, tokens.URI_PREFIXES, [], 4, 9),
             "n_records": rng.randint(2, 5),
-            "width": rng.randint(1, 4),
+            "width": rng.randint(1, 4) if rng.random() < 0.95 else rng.choice([7, 12]),
             "n_rows": rng.choice([0, 1, 2, 3, 4, 5, 6, 8, 10]) if not deep else rng.choice([12, 16, 24, 32]),
             "header": rng.random() < 0.5,
             "sep": rng.choice(SEPS),
@@ -80,7 +81,7 @@ class C16Machine(Machine):
             "eol": rng.choice(["crlf", "crlf", "lf", "lf", "mixed"]),
             "final_eol": rng.random() < 0.8,
             "p_nasty": rng.choice([0.2, 0.5, 0.9]),
-            "n_pd": rng.choice([0, 1, 2]),
+            "n_pd": rng.choice([0, 1, 2, 3]),
             "fault_kinds": rng.sample(FAULT_KINDS, rng.randint(1, len(FAULT_KINDS))),
         }
         if rng.random() < (0.03 if tier == "quick" else 0.06):
@@ -207,7 +208,7 @@ class C16Machine(Machine):
         hdr, rows = self._table(rng, func)
         base = {"op": "file", "func": func, "header": cfg["header"], "hdr": hdr, "column": col, "sep": cfg["sep"],
                 "strict": st, "passthrough": pt, "ambiguous": amb, "path_kind": cfg["path_kind"], "fault": None,
-                "eol": cfg["eol"], "final_eol": cfg["final_eol"]}
+                "eol": cfg["eol"], "final_eol": cfg["final_eol"], "omit_defaults": rng.random() < 0.5}
         plan = []
         # fault-free configuration: no cell raises under the chosen flags
         ff_rows = copy.deepcopy(rows)
@@ -259,6 +260,12 @@ class C16Machine(Machine):
         for _ in range(cfg["n_pd"]):
             pf = rng.choice(PD_FUNCS)
             _, prow = self._table(rng, pf)
+            pamb = rng.random() < 0.4
+            if pamb and pf in ("pd_compress", "pd_expand"):
+                # ambiguous mode is about cells of the other kind: make sure some are there
+                for row in prow:
+                    if rng.random() < 0.4:
+                        row[col] = self._cell(rng, pf, "other_kind")
             names = ["c" + str(i) for i in range(cfg["width"])]
             if rng.random() < 0.35:
                 # integer column labels - equal to the positions, reversed, or unrelated to them
@@ -274,7 +281,7 @@ class C16Machine(Machine):
                 target = names[(col + 1) % cfg["width"]]
             plan.append({"op": "pd", "func": pf, "names": names, "rows": prow, "column": names[col],
                          "target_column": target, "strict": rng.random() < 0.3, "passthrough": rng.random() < 0.5,
-                         "ambiguous": rng.random() < 0.4,
+                         "ambiguous": pamb, "omit_defaults": rng.random() < 0.5,
                          "index": rng.choice(["range", "range", "range", "custom", "reversed", "offset", "duplicated", "sliced"])})
         return plan
 
@@ -432,7 +439,12 @@ class C16Machine(Machine):
             arg = path if op["path_kind"] == "str" else Path(path)
         err = None
         try:
-            getattr(conv, func)(arg, col, sep=op["sep"], header=op["header"], strict=st, passthrough=pt, ambiguous=amb)
+            fkw = {"sep": op["sep"], "header": op["header"], "strict": st, "passthrough": pt, "ambiguous": amb}
+            if op.get("omit_defaults"):
+                # arguments that equal their documented defaults are left out: callers rely on those too
+                fkw = {k: v for k, v in fkw.items() if v != FILE_DEFAULTS[k]}
+                self.probe("file_flags_left_to_defaults")
+            getattr(conv, func)(arg, col, **fkw)
         except Exception as e:  # noqa: BLE001
             err = e
         with open(path, "rb") as f:
@@ -588,15 +600,18 @@ class C16Machine(Machine):
             except Exception as e:  # noqa: BLE001
                 first_fail = (i, type(e).__name__)
                 break
-        kwargs = {"strict": st, "passthrough": pt}
+        kwargs = {"strict": st, "passthrough": pt, "target_column": target}
         if func in ("pd_compress", "pd_expand"):
             kwargs["ambiguous"] = amb
+        if op.get("omit_defaults"):
+            kwargs = {k: v for k, v in kwargs.items() if not (v is False or v is None)}
+            self.probe("pd_flags_left_to_defaults")
         err = None
         try:
             if func in ("pd_compress", "pd_expand"):
-                getattr(conv, func)(df, col, target_column=target, **kwargs)
+                getattr(conv, func)(df, col, **kwargs)
             else:
-                getattr(conv, func)(df, column=col, target_column=target, **kwargs)
+                getattr(conv, func)(df, column=col, **kwargs)
         except Exception as e:  # noqa: BLE001
             err = e
         self.event(func)
